@@ -237,7 +237,7 @@ def scenarios(tier):
         for how in ("string", "file"):
             sc.append((m, how, "fresh+cached"))
     # partially deleted entries: which finals (by role) are removed before the rebuild
-    dels = [(5,), (4, 5), (2, 3), (4,)] if tier == "quick" else \
+    dels = [(5,), (4, 5), (3, 4, 5), (2, 3), (4,)] if tier == "quick" else \
         [tuple(r for j, r in enumerate((2, 3, 4, 5)) if (mask >> j) & 1) for mask in range(1, 16)]
     for dset in dels:
         sc.append(("Serial", "string" if len(dset) % 2 else "file", "delete:" + ",".join(map(str, dset))))
@@ -259,6 +259,26 @@ def setup():
     pregen()
 
 
+def content_signature(cache):
+    """Contents of every cache file except compiled binaries and logs, with the build date removed: an entry rebuilt
+    from ANY partial state must end up identical to a fully built one (same sources, same build.json incl. the
+    recorded dependencies and metadata)."""
+    sig = {}
+    for p in listing(cache):
+        name = os.path.basename(p)
+        if name in ("binary", "build.log", "launcher_binary") or FT.TEMP_RE.match(name):
+            continue
+        try:
+            txt = open(p, errors="replace").read()
+        except OSError:
+            continue
+        if name.endswith(".json"):
+            txt = re.sub(r'"(date|human_date)"\s*:\s*"[^"]*",?', "", txt)
+            txt = re.sub(r"\s+", " ", txt)
+        sig[os.path.relpath(p, cache)] = txt
+    return sig
+
+
 def trace_scenario(exe, base, idx, mode, how, what):
     """returns list of (trace name, translator, ops, pre listing, result line)"""
     cache = os.path.join(base, "cache-%d" % idx)
@@ -273,7 +293,7 @@ def trace_scenario(exe, base, idx, mode, how, what):
         rc, line = run_build(exe, cache, mode, how, 7, kfile, strace_out=st)
         tr = FT.translate(st, cache)
         ops = collapse_writes(tr.finish())
-        out.append(("%s %s %s [%s]" % (mode, how, what, tag), tr, ops, pre, line))
+        out.append(("%s %s %s [%s]" % (mode, how, what, tag), tr, ops, pre, line, content_signature(cache)))
         os.unlink(st)
     one("fresh")
     if what == "fresh+cached":
@@ -427,8 +447,23 @@ def run(run, tier, seed, replay_case=None):
         with ThreadPoolExecutor(max_workers=8) as ex:
             results = list(ex.map(lambda a: trace_scenario(exe, base, a[0], *a[1]), list(enumerate(scs))))
         traces, runs, gruns, bad_results, samples = [], [], [], [], []
+        content_bad = []
         for res in results:
-            for name, tr, ops, pre, line in res:
+            first_sig = res[0][5]
+            for name, tr, ops, pre, line, sig in res[1:]:
+                m = re.search(r" delete:([\d,]+) ", name)
+                if m:
+                    # only states a killed builder can leave: files are published in the order raw source,
+                    # transformed source, build.json, binary, so what is missing is a suffix of that order
+                    # (binary_implies_metadata: a binary without build.json is unreachable)
+                    gone = sorted(int(x) for x in m.group(1).split(","))
+                    if gone != list(range(gone[0], 6)):
+                        continue
+                diff = [k for k in sorted(set(first_sig) | set(sig)) if first_sig.get(k) != sig.get(k)]
+                if diff:
+                    content_bad.append((name, diff, first_sig, sig))
+        for res in results:
+            for name, tr, ops, pre, line, _sig in res:
                 traces.append((name, ops))
                 if line != EXPECT[7]:
                     bad_results.append((name, line))
@@ -516,6 +551,15 @@ def run(run, tier, seed, replay_case=None):
                           "fresh process, same cache dir: %s\nthird process: %s\nrequired: %s\n"
                           "replay: ./check C08 --replay <this file>\n"
                           % (case, k["k"], KILL_SYSCALLS, k["first"], k["rebuilt"], k["again"], EXPECT[7]))
+        for name, diff, a, b in content_bad[:3]:
+            k = diff[0]
+            run.violation("a cache entry rebuilt from a partial state differs from a fully built one: " + name,
+                          "property C08 fails on the implementation built from /repo\ncase: content %s\n"
+                          "state: a complete cache from which the named files were removed (what a killed builder leaves behind), "
+                          "then rebuilt by a fresh process\ndiffering files: %s\n--- %s after a full build:\n%s\n--- after the rebuild:\n%s\n"
+                          "required: identical contents (the entry is later trusted as complete: dependencies and metadata in "
+                          "build.json decide cache invalidation and argument checks)\n"
+                          % (name, ", ".join(diff), k, (a.get(k) or "<absent>")[:700], (b.get(k) or "<absent>")[:700]))
         for name, line in bad_results[:3]:
             run.violation("a traced build did not produce the expected kernel output: " + name,
                           "case: %s\nobserved: %s\nrequired: %s\n" % (name, line, EXPECT[7]))
@@ -538,6 +582,7 @@ def run(run, tier, seed, replay_case=None):
         cov["real_entry_runs_compared_with_model"] = len(runs)
         cov["real_probe_dir_runs_compared_with_group_model"] = len(gruns)
         cov["single_file_removed_rebuilds"] = len(d1)
+        cov["rebuilt_entries_content_compared"] = sum(len(r) - 1 for r in results)
         cov["kill_replays"] = len(kills)
         cov["kill_replays_builder_died"] = sum(1 for k in kills if k["killed"])
         cov["samples"] = [dict(trace=traces[0][0], ops=FT.coq_ops(traces[0][1])[:600])] + \
